@@ -29,7 +29,7 @@ Excls == {{}, {<<"dangling_detection", 1>>}, {<<"identifier_uniqueness", 1>>, <<
           {<<"dangling_detection", 1>>, <<"duplicate_title", 1>>, <<"identifier_uniqueness", 1>>},
           \* entries for the rules WITHOUT identifier (key null in the table)
           {<<"dangling_detection", 0>>, <<"duplicate_title", 0>>}, {<<"dangling_condition", 0>>, <<"duplicate_filename", 0>>, <<"dangling_detection", 1>>}}
-N == IF Quick THEN 400 ELSE 8000
+N == IF Quick THEN 400 ELSE 3000
 Colls == {<<r>> : r \in RandomSubset(60, Rules)} \cup RandomSubset(N, [1..2 -> Rules]) \cup RandomSubset(N, [1..3 -> Rules])
 \* two (three) copies of ONE rule - the same file in two directories of a rule set -, also beside a different rule with the same id
 Twins == {<<r, r>> : r \in RandomSubset(12, {q \in Rules : q.uid # 0})}
